@@ -140,7 +140,37 @@ pub fn programs(tier: Tier) -> ProgramSet {
             }
         }
     }
-    ProgramSet { programs: finish(out), excluded: Default::default(), bounds: json!({"plan_(N,k)": plan, "doc_line_sets": doc_sets(tier).len()}) }
+    // SCALE: many variants each with its own metadata; one variant with many doc lines / serializations
+    {
+        let mut spec = EnumSpec::base(0);
+        for i in 0..36usize {
+            let mut v = VariantSpec::unit(&format!("V{}w", i));
+            if i % 3 != 1 {
+                v.message = Some(format!("message {}", i));
+            }
+            if i % 4 == 0 {
+                v.detailed_message = Some(format!("detail {}", i));
+            }
+            if i % 5 != 0 {
+                v.docs = (0..(i % 4 + 1)).map(|l| (format!(" doc {} line {}", i, l), if l % 2 == 0 { DocForm::Comment } else { DocForm::Attr })).collect();
+            }
+            if i % 6 == 3 {
+                v.serialize = (0..(i / 6 + 1)).map(|j| format!("s{}x{}", i, j)).collect();
+            }
+            if i % 7 == 6 {
+                v.disabled = true;
+            }
+            spec.variants.push(v);
+        }
+        let mut long = VariantSpec::unit("Long");
+        long.docs = (0..24).map(|l| (if l % 5 == 4 { String::new() } else { format!(" line {:02}", l) }, DocForm::Comment)).collect();
+        long.serialize = (0..20).map(|j| format!("long{}", j)).collect();
+        long.message = Some("m".repeat(300));
+        spec.variants.push(long);
+        let source = render(&spec);
+        out.push(Program { idx: 0, label: "SCALE: 37 variants with individual metadata; 24 doc lines, 20 serializations, 300-char message".into(), k: 1, spec, aux: json!(null), source });
+    }
+    ProgramSet { programs: finish(out), excluded: Default::default(), bounds: json!({"plan_(N,k)": plan, "doc_line_sets": doc_sets(tier).len(), "scale": "37 variants; 24 doc lines; 20 serializations"}) }
 }
 
 pub fn render(spec: &EnumSpec) -> String {
